@@ -824,6 +824,13 @@ class Gen:
                     self.h.append(odd[8])
                 if line not in self.h:
                     self.h.append(line)
+                    # trivial definitions so that generated wrappers link
+                    body = {"odd_fwd_": "{}", "odd_fwdret_": "{ return nullptr; }", "odd_cb_": "{}", "odd_rv_": "{}",
+                            "odd_pp_": "{}", "odd_arr_": "{}", "odd_va_": "{}", "odd_un_": "{}", "odd_vp_": "{}",
+                            "odd_ld_": "{ return x; }", "odd_wc_": "{ return c; }"}
+                    for k, bd in body.items():
+                        if k in line:
+                            self.cx.append(line.rstrip(";") + " " + bd)
             self.model["oddities"] = n
         if getattr(self, "ordering", False):
             # overload sets whose members are equally ranked for dispatch (unrelated classes, integer widths)
